@@ -95,8 +95,12 @@ class P:
             n = self.choice()
             assert self.take()[0] == ")"
         elif k == "str":
-            self.take()
-            n = Node("lit")
+            raw = self.take()[1]
+            try:
+                val = bytes(raw[1:-1], "utf-8").decode("unicode_escape")
+            except Exception:
+                val = raw[1:-1]
+            n = Node("lit", v=val)
         elif k == "chr":
             self.take()
             if self.peek() == "..":
@@ -118,8 +122,10 @@ class P:
             if op[0] == "rep":
                 m = re.match(r"\{\s*(\d*)\s*(,?)\s*(\d*)\s*\}", op[1])
                 lo = int(m.group(1) or 0)
+                hi = int(m.group(3)) if m.group(3) else (lo if not m.group(2) else None)
                 n = Node("rep", [n], v="opt" if lo == 0 else "req")
                 n.a.append("{}")
+                n.a.append((lo, hi))
             else:
                 n = Node("rep", [n], v="req" if op[0] == "+" else "opt")
                 n.a.append("?" if op[0] == "?" else op[0])
@@ -248,3 +254,41 @@ class Grammar:
         if self.atomic(rule):
             return (0, 0)
         return self.count(self.ast[rule], (rule,))
+
+
+def escape_alternatives(g):
+    """alternatives after the backslash in `string_escape`: list of (leading literal, tail) where tail is a list of
+    ('hex', lo, hi) | ('lit', text) | ('other',) parts"""
+    ast = g.ast.get("string_escape")
+    if ast is None or ast.k != "seq" or ast.a[0].k != "lit" or ast.a[0].v != "\\":
+        return None
+    rest = ast.a[1:]
+    alt_node = rest[0] if len(rest) == 1 else Node("seq", rest)
+    alts = alt_node.a if alt_node.k == "choice" else [alt_node]
+    out = []
+    for a in alts:
+        parts = a.a if a.k == "seq" else [a]
+        if parts[0].k != "lit":
+            out.append((None, [("other",)]))
+            continue
+        tail = []
+        for p in parts[1:]:
+            if p.k == "rep" and p.a[0].k == "id" and p.a[0].v == "ASCII_HEX_DIGIT":
+                kind = p.a[1]
+                if kind == "{}":
+                    lo, hi = p.a[2]
+                elif kind == "+":
+                    lo, hi = 1, None
+                elif kind == "*":
+                    lo, hi = 0, None
+                else:
+                    lo, hi = 0, 1
+                tail.append(("hex", lo, hi))
+            elif p.k == "id" and p.v == "ASCII_HEX_DIGIT":
+                tail.append(("hex", 1, 1))
+            elif p.k == "lit":
+                tail.append(("lit", p.v))
+            else:
+                tail.append(("other",))
+        out.append((parts[0].v, tail))
+    return out
